@@ -677,3 +677,67 @@ Definition predict_C10_order (c : list (stage * source) * str) : json :=
 Definition predict_C10_ts (c : ts_thrown * option Z) : json :=
   let r := ts_server_error (fst c) (snd c) in
   JObj [(s "tags", jstrs (ts_server_defects (fst c))); (s "status", JNum (ts_status r)); (s "body", ts_body r); (s "hooked", JBool (ts_hooked r))].
+
+(* ---- size classes (C10 family "error-size") ------------------------------------------------------------------ *)
+(* Nothing above depends on how long a message or a violation list is; the correspondence check also runs
+   bodies of 5 KiB and 200 KiB and lists of 60 and 600 violations.  Their texts are not written out as
+   literals: the case term builds them with the generators below (the harness builds the same bytes), and
+   prediction and observation are compared after digest_json, which replaces every string longer than
+   long_limit bytes and every array longer than long_array_limit elements by its length and position-
+   sensitive sums (short values are left alone, see digest_json_short in ErrorsFacts.v). *)
+Fixpoint rep_str (n : nat) (u : str) : str := match n with O => [] | S k => u ++ rep_str k u end.
+Definition unit64 : str := s "0123456789abcdefghijklmnopqrstuvwxyzABCDEFGHIJKLMNOPQRSTUVWXYZ-_".
+Definition sized_text (n : nat) : str := rep_str n unit64.
+Definition nat_text (i : nat) : str := show_int (Z.of_nat i).
+Definition gen_viols (n : nat) : list (str * str) :=
+  map (fun i => (s "items[" ++ nat_text i ++ s "].name",
+                 s "value is required and must be between 1 and 64 characters long (element " ++ nat_text i ++ s ")")) (seq 0 n).
+Definition gen_rules (n : nat) : list (option (list str) * str) :=
+  map (fun i => (Some [s "items"; s "name"],
+                 s "value is required and must be between 1 and 64 characters long (element " ++ nat_text i ++ s ")")) (seq 0 n).
+
+Fixpoint byte_sums (x : str) (a b : N) : N * N :=
+  match x with
+  | [] => (a, b)
+  | c :: r => let a' := (a + code c)%N in byte_sums r a' (b + a')%N
+  end.
+Definition str_hash (x : str) : N :=
+  let '(a, b) := byte_sums x 0 0 in (7 + a + 3 * b + 11 * N.of_nat (List.length x))%N.
+Fixpoint json_hash (j : json) : N :=
+  match j with
+  | JNull => 1
+  | JBool true => 2
+  | JBool false => 3
+  | JNum z => 5 + (if (z <? 0)%Z then 2 * Z.to_N (- z) + 1 else 2 * Z.to_N z)
+  | JStr x => str_hash x
+  | JArr l =>
+      13 + (fix go (l : list json) (i acc : N) : N :=
+              match l with
+              | [] => acc
+              | x :: r => go r (i + 1) (acc + i * json_hash x)
+              end) l 1 0
+  | JObj kv =>
+      17 + (fix go (l : list (str * json)) (acc : N) : N :=
+              match l with
+              | [] => acc
+              | (k, v) :: r => go r (acc + (str_hash k + 1) * (json_hash v + 1))
+              end) kv 0
+  end%N.
+Definition long_limit : nat := 256.
+Definition long_array_limit : nat := 32.
+Definition long_mark (kind : str) (len : nat) (h : N) : json :=
+  JObj [(kind, JArr [JNum (Z.of_nat len); JNum (Z.of_N h)])].
+Fixpoint digest_json (j : json) : json :=
+  match j with
+  | JStr x => if Nat.ltb long_limit (List.length x) then long_mark (s "$long-string") (List.length x) (str_hash x) else j
+  | JArr l =>
+      if Nat.ltb long_array_limit (List.length l) then long_mark (s "$long-array") (List.length l) (json_hash j)
+      else JArr ((fix go (l : list json) : list json :=
+                    match l with [] => [] | x :: r => digest_json x :: go r end) l)
+  | JObj kv =>
+      JObj ((fix go (l : list (str * json)) : list (str * json) :=
+               match l with [] => [] | (k, v) :: r => (k, digest_json v) :: go r end) kv)
+  | _ => j
+  end.
+
+Definition predict_C10_sized (c : c10_case) : json := digest_json (predict_C10 c).
